@@ -90,6 +90,13 @@ def gen_case(seed: int, tier: str, index: int) -> Dict[str, Any]:
         plan.append({"op": "transfer", "start": start, "length": length,
                      "block": rng.choice(["random", "random", "zeros", "ff", "mutsnap"]),
                      "bseed": rng.getrandbits(32), "retries": rng.choice([10, 10, 5, 3, 2, 1])})
+    if rng.random() < 0.3:
+        # two callers fetch different ranges of the same connection at (almost) the same time: segments carry no request identity, so
+        # only the serialisation of whole transfers keeps one caller from assembling the other's chain
+        for _ in range(rng.choice([1, 2])):
+            a, b = _draw_range(rng), _draw_range(rng)
+            plan.insert(rng.randrange(len(plan) + 1), {"op": "pair", "ranges": [list(a), list(b)], "offset": rng.choice([0.0, 0.0, 0.001, 0.01, 0.05, 0.11, 0.3]),
+                                                       "block": rng.choice(["random", "mutsnap"]), "bseed": rng.getrandbits(32), "retries": rng.choice([10, 3, 2])})
     return {"property": PROP, "world": "A", "seed": seed, "cfg": cfg, "plan": plan}
 
 
@@ -192,6 +199,26 @@ async def scenario(world: WorldA) -> None:
     shapes = []
     try:
         for ti, op in enumerate(world.case["plan"]):
+            if op["op"] == "pair":
+                # the statement excludes datagrams delayed beyond the gap between distinct transfers; two back-to-back transfers have no
+                # gap, so during a pair the network only loses datagrams (no duplicates, no long delays: nothing of the first transfer
+                # can still be under way when the second one is served)
+                # (event-loop stalls are off too: a stall longer than the timeout makes the first caller re-request while its chain is
+                # still arriving, and the redundant chain is then under way when the second caller is served)
+                saved = {k: world.net.cfg.get(k) for k in ("dup", "slow_p", "lat_max")}
+                world.net.cfg.update(dup=0.0, slow_p=0.0, lat_max=min(world.net.cfg.get("lat_max", 0.004), 0.004))
+                world.loop.stalls_on = False
+                try:
+                    await run_pair(world, ti, op, spa, struct, protocol, peer, snap_block, installs)
+                    await world.quiesce(extra_idle=0.25, cap=120.0, queues=[protocol.queue])
+                finally:
+                    world.loop.stalls_on = True
+                    for k, v in saved.items():
+                        if v is None:
+                            world.net.cfg.pop(k, None)
+                        else:
+                            world.net.cfg[k] = v
+                continue
             start, length, retries = op["start"], op["length"], op["retries"]
             old = struct.status_block
             spa_block = make_block(op["block"], op["bseed"], old, snap_block)
@@ -304,8 +331,68 @@ async def scenario(world: WorldA) -> None:
     if res.faultfree:
         res.nontrivial = True
     res.sample = {"profile": cfg["profile"], "snapshot": cfg["snapshot"],
-                  "plan": [(o["start"], o["length"], o["retries"]) for o in world.case["plan"][:6]],
+                  "plan": [(o.get("start", o.get("ranges")), o.get("length"), o["retries"]) for o in world.case["plan"][:6]],
                   "faults": dict(res.faults)}
+
+
+async def run_pair(world: WorldA, ti: int, op: Dict[str, Any], spa, struct, protocol, peer, snap_block: bytes, installs: List[Any]) -> None:
+    """Two concurrent transfers of different ranges on one connection."""
+    from geckolib.driver import GeckoStatusBlockProtocolHandler
+
+    res = world.result
+    cfg = world.cfg
+    old = struct.status_block
+    spa_block = make_block(op["block"], op["bseed"], old, snap_block)
+    peer.set_block(spa_block)
+    mark = len(world.net.history)
+    del installs[:]
+    retries = op["retries"]
+    world.log.add("pair-begin", ti, repr(op["ranges"]), retries)
+
+    def call(start: int, length: int):
+        return struct.get(protocol, lambda: GeckoStatusBlockProtocolHandler.request(
+            protocol.get_and_increment_sequence_counter(False), start, length, parms=spa.sendparms), retry_count=retries)
+
+    (s1, l1), (s2, l2) = op["ranges"]
+    t1 = asyncio.ensure_future(call(s1, l1))
+    t1.set_name("HARNESS:get-a")
+    if op["offset"]:
+        await asyncio.sleep(op["offset"])
+    t2 = asyncio.ensure_future(call(s2, l2))
+    t2.set_name("HARNESS:get-b")
+    pending = {t1, t2}
+    while pending:
+        _, pending = await asyncio.wait(pending, timeout=1.0)
+        n_req = sum(1 for r in world.net.history[mark:] if r.verb == "STATU" and r.src[0] != SPA_IP)
+        if n_req > 2 * retries + 2 and pending:
+            for t in pending:
+                t.cancel()
+            world.violate(PROP, "too-many-requests", f"pair#{ti} ranges={op['ranges']} retries={retries}: {n_req} STATU requests sent and the calls are still going")
+    ok1, ok2 = t1.result(), t2.result()
+    new = struct.status_block
+    ctx = f"pair#{ti} ranges={op['ranges']} offset={op['offset']} retries={retries} profile={cfg['profile']} results={bool(ok1)},{bool(ok2)}"
+    res.probe("concurrent_transfers")
+    res.stats["transfers"] = res.stats.get("transfers", 0) + 2
+    n_ok = int(bool(ok1)) + int(bool(ok2))
+    if len(installs) != n_ok:
+        world.violate(PROP, "install-count", f"{ctx}: {n_ok} call(s) succeeded but {len(installs)} install(s) happened")
+    covered = set()
+    for ok, (s0, l0) in ((ok1, (s1, l1)), (ok2, (s2, l2))):
+        if ok:
+            covered.update(range(s0, s0 + l0))
+            bad = [i for i in range(s0, s0 + l0) if new[i] != spa_block[i]]
+            if bad:
+                world.violate(PROP, "wrong-bytes", f"{ctx}: requested byte {bad[0]} of range ({s0},{l0}) is {new[bad[0]]:#x}, spa has {spa_block[bad[0]]:#x} "
+                              f"({len(bad)} bad)", sig="wrong-bytes:concurrent-transfers")
+    other = [i for i in range(1024) if i not in covered and new[i] != old[i] and new[i] != spa_block[i]]
+    if other:
+        world.violate(PROP, "foreign-bytes", f"{ctx}: byte {other[0]} outside the successful requests changed to a value that is not the spa's",
+                      sig="foreign-bytes:concurrent-transfers")
+    if n_ok == 0 and new != old:
+        world.violate(PROP, "failure-touched-block", f"{ctx}: both calls reported failure but the block changed")
+    if res.faultfree and n_ok < 2:
+        world.violate(PROP, "faultfree-fail", f"{ctx}: a transfer failed on a fault-free network", sig="faultfree-fail:concurrent-transfers")
+    world.log.add("pair-end", ti, bool(ok1), bool(ok2), len(installs))
 
 
 def run_case(case: Dict[str, Any], replay: Optional[Dict[str, Any]] = None, keep_log: bool = False) -> RunResult:
@@ -339,7 +426,7 @@ ASSUMPTIONS = [
     "the spa block is constant during one transfer",
     "SimLoop runs ready callbacks FIFO and timers in deadline order, like CPython's loop",
 ]
-PROBES = ["lost_segment", "lost_final_segment", "dup_segment", "dup_final_segment", "reordered_segments",
+PROBES = ["concurrent_transfers", "lost_segment", "lost_final_segment", "dup_segment", "dup_final_segment", "reordered_segments",
           "succeeded_on_attempt_ge3", "all_attempts_failed", "over_read", "length_multiple_of_39"]
 EXHAUSTIVE = {"quick": False, "thorough": False}
 N_QUICK = 3000
